@@ -28,6 +28,7 @@ PLAN = dict(
                 "non-canonical inputs. The SCT boundary sub-check enumerates its described finite space completely on every run; the rest is sampled."),
     level_note=NOTE_BASE,
     runs=[
+        dict(name="conc", run="^(TestConcSCT|TestConcChain|TestConcCrafted)$", checks=(40, 2000), shards=(2, 8), timeout=(400, 3600), race=True),
         dict(name="exh", run="^(TestExhaustiveSCT|TestExhaustiveChainPresence|TestCorpus)$", timeout=(300, 3600)),
         dict(name="chain", run="^TestPropChain$", checks=(5000, 150000), shards=(1, 16), timeout=(300, 3600)),
         dict(name="craft", run="^TestPropCrafted$", checks=(8000, 200000), shards=(1, 16), timeout=(300, 3600)),
